@@ -94,7 +94,7 @@ func containsSwitch(beh []mstep) bool {
 // had been applied to it (observed on the real stores), and a fatal harness error if any.
 func runMultiBehaviour(res *abs.Result, mem kv.Client, beh []mstep, key string) (bool, string) {
 	ctx := context.Background()
-	mkv, stop, err := newMemberlistKV(ctx)
+	mkv, stop, err := newMemberlistKV(ctx, 10)
 	if err != nil {
 		return false, err.Error()
 	}
